@@ -349,6 +349,33 @@ def rebuild_case(item) -> Dict[str, Any]:
             'assumptions': ctx.assumptions, 'exhausted': ctx.exhausted or diverged}
 
 
+# -- 2c. option values of NumPy integer types (np.int64(5) is an explicit lags= like 5 is) --------------------------------
+def npint_case(item) -> Dict[str, Any]:
+    import numpy as np
+    hints = item
+    out = {'kind': 'npint', 'item': f'numpy-integer options hints={hints}', 'paths': 1, 'stats': {}, 'bad': [], 'assumptions': [], 'exhausted': True}
+
+    def symbols():
+        return [fparser.Symbol('Y', T.ENDOGENOUS, -2, 0, 'Y[t] = X[t-2] + Z[t+1]', 'self._Y[t] = self._X[t-2] + self._Z[t+1]'),
+                fparser.Symbol('X', T.EXOGENOUS, -2, 0, None, None), fparser.Symbol('Z', T.EXOGENOUS, 0, 1, None, None)]
+
+    for ty in (np.int64, np.int32, np.uint8, np.intp):
+        for kw, want in (({'lags': 5}, (5, 1)), ({'lags': 0}, (0, 1)), ({'leads': 4}, (2, 4)), ({'leads': 0}, (2, 0)), ({'min_lags': 3}, (3, 1)),
+                         ({'min_leads': 3}, (2, 3)), ({'lags': 1, 'min_lags': 9}, (1, 1)), ({'lags': 6, 'leads': 7}, (6, 7))):
+            kwn = {k: ty(v) for k, v in kw.items()}
+            try:
+                text = fsic.build_model_definition(symbols(), with_type_hints=hints, **kwn)
+                got = (int(re.search(r'^\s*LAGS(?:: int)? = (.+)$', text, re.M).group(1)), int(re.search(r'^\s*LEADS(?:: int)? = (.+)$', text, re.M).group(1)))
+                M = fsic.build_model(symbols(), with_type_hints=hints, **kwn)
+                got2 = (int(M.LAGS), int(M.LEADS))
+            except Exception as e:  # noqa: BLE001
+                got = got2 = f'{type(e).__name__}: {e}'
+            if got != want or got2 != want:
+                out['bad'].append({'what': f'options {kw} given as {ty.__name__}: LAGS/LEADS {got} / {got2}, expected {want}', 'replayed': True,
+                                   'values': {'options': {k: f'{ty.__name__}({v})' for k, v in kw.items()}}})
+    return out
+
+
 # -- 3. default range ------------------------------------------------------------------------------------
 def range_case(item) -> Dict[str, Any]:
     L, origin, twin = item
@@ -458,7 +485,7 @@ def named_case(item) -> Dict[str, Any]:
 def dispatch(item):
     kind, payload = item
     return {'merge': merge_case, 'lagsleads': lagslead_case, 'range': range_case, 'program': program_case,
-            'named': named_case, 'rebuild': rebuild_case}[kind](payload)
+            'named': named_case, 'rebuild': rebuild_case, 'npint': npint_case}[kind](payload)
 
 
 def main() -> int:
@@ -483,6 +510,7 @@ def main() -> int:
     for mode in ('min_lags', 'min_leads', 'lags', 'leads'):
         for hints in (True, False):
             items.append(('rebuild', (mode, hints)))
+    items += [('npint', True), ('npint', False)]
     for L in range(0, 5 if tier == 'quick' else 12):
         for origin in (0, 1990):
             items.append(('range', (L, origin, None)))
@@ -515,7 +543,7 @@ def main() -> int:
         by_kind[r['kind']] = by_kind.get(r['kind'], 0) + 1
         add_stats(tot, r['stats'])
         assumptions.update(r['assumptions'])
-        if r['kind'] not in ('program', 'named'):
+        if r['kind'] not in ('program', 'named', 'npint'):
             solver_obligations += 1
             if not r['exhausted'] or r['paths'] == 0:
                 rep.error(f"obligation not exhaustively explored / vacuous: {r['item']}")
